@@ -70,3 +70,9 @@ def unS__(ex, st, v):
 def keys_of(ex, st, d):
     """the insertion-ordered keys of a dict"""
     return Sym("seq", d.py.keys, Spec("seq", d.py.kspec))
+
+
+@spec_function()
+def set_or(ex, st, a, b):
+    """set union of two collections (as a membership predicate carrier)"""
+    return ex.set_union(ex.coerce(a, Spec("set", Spec("val")), st), b, st)
